@@ -491,7 +491,7 @@ impl Space for BigTables {
 
 /// The same coherence through ElfBytes: relocation sections (whose sh_entsize nobody validates)
 /// and dynamic tables reached through the section and through PT_DYNAMIC alone.
-struct FileTables;
+pub struct FileTables;
 const FT_ENTSIZES: [u64; 9] = [u64::MAX, 0, 1, 7, 8, 12, 16, 24, 48]; // MAX = the structure's own size
 impl FileTables {
     fn dims() -> [u64; 5] {
@@ -501,7 +501,7 @@ impl FileTables {
 }
 impl Space for FileTables {
     fn name(&self) -> String {
-        "ElfBytes: section_data_as_rels / section_data_as_relas / dynamic() via .dynamic / dynamic() and find_common_data() via PT_DYNAMIC alone on generated files: 0..=5 whole entries + a ragged tail of {0, 1, entsize-1} bytes x declared sh_entsize in {own size, 0, 1, 7, 8, 12, 16, 24, 48} (relocations only) x 4 encodings; the entries yielded are exactly the whole entries of the bytes, in order".into()
+        "ElfBytes and ElfStream: section_data_as_rels / section_data_as_relas / dynamic() via .dynamic / dynamic() and find_common_data() via PT_DYNAMIC alone on generated files: 0..=5 whole entries + a ragged tail of {0, 1, entsize-1} bytes x declared sh_entsize in {own size, 0, 1, 7, 8, 12, 16, 24, 48} (relocations only) x 4 encodings; the entries yielded are exactly the whole entries of the bytes, in order".into()
     }
     fn size(&self) -> u64 {
         product(&Self::dims())
@@ -582,7 +582,39 @@ impl Space for FileTables {
                 }
             })
         });
-        out.transitions += 2;
+        // the stream parser's views of the same file
+        let rs = subject(|| {
+            let mut f = elf::ElfStream::<AnyEndian, _>::open_stream(std::io::Cursor::new(bytes.clone())).ok()?;
+            let cap = blen + 2;
+            Some(match kind {
+                0 => {
+                    let h = *f.section_headers().get(1)?;
+                    ("ElfStream::section_data_as_rels", f.section_data_as_rels(&h).ok().map(|it| it.take(cap).map(|x| x.dig()).collect::<Vec<u64>>()))
+                }
+                1 => {
+                    let h = *f.section_headers().get(1)?;
+                    ("ElfStream::section_data_as_relas", f.section_data_as_relas(&h).ok().map(|it| it.take(cap).map(|x| x.dig()).collect::<Vec<u64>>()))
+                }
+                _ => ("ElfStream::dynamic()", f.dynamic().ok().flatten().map(|t| t.iter().take(cap).map(|x| x.dig()).collect::<Vec<u64>>())),
+            })
+        });
+        match rs {
+            Err(m) => out.violate(format!("panic:ElfStream tables in {}", panic_site(&m)), m),
+            Ok(None) => out.violate("file-tables:generated file does not open as a stream", ctx.clone()),
+            Ok(Some((name, got))) => match got {
+                None => {
+                    if !(kind >= 2 && blen == 0) {
+                        out.violate(format!("file-tables:{name} fails"), ctx.clone());
+                    }
+                }
+                Some(items) => {
+                    if items != truth {
+                        out.violate(format!("file-tables:{name}"), format!("{ctx}: {} entries are yielded{}, the bytes hold {} whole entries", items.len(), if items.len() == truth.len() { " (contents differ)" } else { "" }, truth.len()));
+                    }
+                }
+            },
+        }
+        out.transitions += 3;
         match r {
             Err(m) => out.violate(format!("panic:ElfBytes tables in {}", panic_site(&m)), m),
             Ok(None) => out.violate("file-tables:generated file does not open", ctx),
